@@ -394,8 +394,15 @@ class P(Prop):
         return {"ops": ops, "tracks": final}
 
     def w_ids(self, H, tr):
+        """heap numbers of the observation objects of a track; an object not seen before (a copy) gets the next number"""
         where = {id(o): h for h, o in enumerate(H)}
-        return [where[id(o)] for o in tr.getObsList()]
+        out = []
+        for o in tr.getObsList():
+            if id(o) not in where:
+                where[id(o)] = len(H)
+                H.append(o)
+            out.append(where[id(o)])
+        return out
 
     def w_table(self, tr):
         """names and columns of a track, read without going through the library (an observer must not have effects)"""
@@ -469,11 +476,6 @@ class P(Prop):
             new = tr[op[2]:op[3]]
         elif kind == "cp":
             new = tr.copy()
-            known = {id(o) for o in H}
-            for o in new.getObsList():
-                if id(o) not in known:
-                    known.add(id(o))
-                    H.append(o)
         else:
             raise ValueError(kind)
         tracks.append(new)
@@ -629,11 +631,33 @@ class P(Prop):
         info = sym.apply(op)                 # bookkeeping: positions / stamps after edits, names, slots, validity
         ids = sym.tracks[k]["ids"]
         n = len(ids)
-        # computing, reading, deriving tracks: positions and timestamps of EVERY observation stay what the history made them
         heap = rec["heap"]
-        if len(heap) != len(sym.pos):
+        if kind in W.NEW_OPS and not sym.tainted:
+            # which objects the new track references is the implementation's business (sharing or copying is not part of
+            # this property): adopt its numbering, provided the fixes are the designated ones
+            if "err" in rec or not isinstance(rec.get("r"), list) or len(rec["r"]) != len(sym.tracks[-1]["ids"]):
+                sym.tainted = True
+            else:
+                want = sym.tracks[-1]["ids"]
+                for j, h in enumerate(rec["r"]):
+                    if h >= len(sym.pos):
+                        if h != len(sym.pos) or h >= len(heap):
+                            sym.tainted = True
+                            break
+                        sym.pos.append(list(sym.pos[want[j]]))
+                        sym.fld.append(dict(sym.fld[want[j]]))
+                        sym.slots.append(heap[h]["nf"])
+                    elif sym.pos[h] != sym.pos[want[j]] or sym.fld[h] != sym.fld[want[j]]:
+                        sym.tainted = True
+                        break
+                if not sym.tainted:
+                    sym.tracks[-1]["ids"] = list(rec["r"])
+            if sym.tainted:
+                return None
+        # computing, reading, deriving tracks: positions and timestamps of EVERY observation stay what the history made them
+        if len(heap) < len(sym.pos):
             return "%d observations exist, %d expected" % (len(heap), len(sym.pos))
-        for h, o in enumerate(heap):
+        for h, o in enumerate(heap[:len(sym.pos)]):
             if not close(o["xyz"], sym.pos[h], 0.0, 0.0):
                 return "position of observation %d is %s, expected %s" % (h, o["xyz"], sym.pos[h])
             if o["t"] != [sym.fld[h][f] for f in W.FIELDS]:
